@@ -83,8 +83,9 @@ class CtlGen:
     comparisons on the arguments; loops are `while ext(k)` or `for i in range(n)`.
     """
 
-    def __init__(self, ch, max_compounds=2, max_depth=2, max_term=2, arg_tests=False, seq=True):
+    def __init__(self, ch, max_compounds=2, max_depth=2, max_term=2, arg_tests=False, seq=True, pass_bodies=False):
         self.ch = ch
+        self.pass_bodies = pass_bodies
         self.compounds = max_compounds
         self.max_depth = max_depth
         self.terms = max_term
@@ -144,7 +145,10 @@ class CtlGen:
         return out
 
     def block(self, ind, depth, inloop, force_compound=False):
-        out = self.marker(ind)
+        if self.pass_bodies and depth > 0 and (self.pass_bodies == "all" or self.ch.choose(2)):
+            out = [f"{ind}pass"]
+        else:
+            out = self.marker(ind)
         ncomp = 0
         while self.compounds > 0 and depth < self.max_depth and ncomp < (2 if self.seq else 1):
             if force_compound and ncomp == 0:
@@ -183,6 +187,68 @@ class CtlGen:
             lines.append("    return v + x")
         # tail == 2: implicit `return None`
         return "\n".join(lines) + "\n"
+
+
+# ---------------------------------------------------------------------------
+# S2-loops: two nested loops, one terminator (optionally under an `if`) in every position
+
+
+class LoopGen:
+    """outer loop x inner loop (with / without else) x one break / continue / return
+    placed in: inner body, inner else, outer body after the inner loop, outer else -
+    directly or under an `if ext(k)`."""
+
+    LOOPS = ["while", "whileelse", "for", "forelse"]
+    PLACES = ["inner-body", "inner-else", "outer-after", "outer-else", "outer-before"]
+    TERMS = ["break", "continue", "return v"]
+
+    def __init__(self, ch):
+        self.ch = ch
+        self.kinds_used = []
+
+    def head(self, kind, k, ind):
+        if kind.startswith("while"):
+            return f"{ind}while ext({k}):"
+        return f"{ind}for i{k} in range(n):"
+
+    def program(self):
+        c = self.ch.choose
+        outer = self.LOOPS[c(4)]
+        inner = self.LOOPS[c(4)]
+        place = self.PLACES[c(len(self.PLACES))]
+        term = self.TERMS[c(3)]
+        guarded = c(2)
+        self.kinds_used = [outer, inner]
+        self.position = f"{place}:{term}:{'if' if guarded else 'bare'}"
+
+        def T(ind):
+            if guarded:
+                return [f"{ind}if ext(7):", f"{ind}    mark(70)", f"{ind}    {term}", f"{ind}mark(71)"]
+            return [f"{ind}{term}"]
+
+        L = ["def f(x, y, n, c, v=0):", "    mark(1)"]
+        L.append(self.head(outer, 0, "    "))
+        L.append("        mark(2)")
+        if place == "outer-before":
+            L += T("        ")
+        L.append(self.head(inner, 1, "        "))
+        L += ["            mark(3)", "            v += 1"]
+        if place == "inner-body":
+            L += T("            ")
+        if inner.endswith("else") or place == "inner-else":
+            L += ["        else:", "            mark(4)"]
+            if place == "inner-else":
+                L += T("            ")
+        L.append("        mark(5)")
+        if place == "outer-after":
+            L += T("        ")
+        if outer.endswith("else") or place == "outer-else":
+            L += ["    else:", "        mark(6)"]
+            if place == "outer-else":
+                t2 = "return v" if term != "return v" else term
+                L += ([f"        if ext(7):", f"            {t2}"] if guarded else [f"        {t2}"])
+        L += ["    mark(8)", "    return v"]
+        return "\n".join(L) + "\n"
 
 
 # ---------------------------------------------------------------------------
@@ -296,7 +362,7 @@ class ExprGen:
             return f"ext({s}, {sub()})"
         raise AssertionError(op)
 
-    POSITIONS = ["if", "elif", "while", "return", "assign", "augassign", "callarg", "foriter", "ifelse-both"]
+    POSITIONS = ["if", "elif", "while", "return", "assign", "augassign", "callarg", "foriter", "ifelse-both", "while-continue"]
 
     def program(self):
         pos = self.POSITIONS[self.ch.choose(len(self.POSITIONS))]
@@ -311,6 +377,9 @@ class ExprGen:
             L += ["    if ext(90):", "        mark(1)", f"    elif {e}:", "        mark(2)", "    else:", "        mark(3)", "    return v"]
         elif pos == "while":
             L += [f"    while {e}:", "        mark(1)", "        v += 1", "        if v == 2:", "            break", "    else:", "        mark(2)", "    return v"]
+        elif pos == "while-continue":
+            L += [f"    while {e}:", "        v += 1", "        if v == 3:", "            break", "        if ext(92):", "            continue",
+                  "        mark(1)", "    return v"]
         elif pos == "return":
             L += ["    mark(1)", f"    return {e}"]
         elif pos == "assign":
